@@ -37,8 +37,9 @@ pub fn tokenize(s: &str) -> Vec<Tok> {
             out.push(Tok::Str(cs[i..(j + 1).min(cs.len())].iter().collect()));
             i = j + 1;
         } else if c == '/' && i + 1 < cs.len() && cs[i + 1] == '/' {
+            // a comment ends at a line feed or a carriage return (cedar's lexers: `//[^\n\r]*`)
             let mut j = i + 2;
-            while j < cs.len() && cs[j] != '\n' {
+            while j < cs.len() && cs[j] != '\n' && cs[j] != '\r' {
                 j += 1;
             }
             out.push(Tok::Comment(cs[i + 2..j].iter().collect()));
